@@ -201,8 +201,13 @@ class Gen:
             inner['sources'][j] = inner_name
             if inner['contents']:
                 inner['contents'][j] = original
-        # the inner source is identified by the SourceMapSource's own name
-        return ('sms', value, inner_name, outer, original if give_orig else None, inner, r.random() < 0.3)
+        # the inner source is identified by the SourceMapSource's own name; sometimes the name
+        # matches no source of the outer map (the inner map is then never applied) - the name is
+        # observable through map() although the hash ignores it (Props/C20.v)
+        own_name = inner_name
+        if r.random() < 0.12:
+            own_name = r.choice(['', name, inner_name + 'x'])
+        return ('sms', value, own_name, outer, original if give_orig else None, inner, r.random() < 0.3)
 
     # ---- trees ----
     def leaf(self):
